@@ -136,7 +136,7 @@ KdfCalls ==
        L \in {0, 1, 32, 64, 255 * 32, 255 * 32 + 1, 255 * 64, 255 * 64 + 1, 65535, 65536, 70000}}
 
 (****************************** PSK bundle ***********************************)
-PskLens == {0, 1, 2, 31, 32, 33, 64, 1000}
+PskLens == {0, 1, 2, 31, 32, 33, 64, 1000, 65535, 65536, 70000}
 \* the rule is about EMPTINESS, not content: all-zero and all-ones strings are ordinary non-empty values
 PskContents(name, n) == {Leaf(name \o ToString(n), n)} \cup (IF n \in {1, 2, 32} THEN {Lit(Zeros(n)), Lit(Fill(255, n))} ELSE {})
 PskCalls ==
